@@ -275,6 +275,9 @@ func (g *Gen) star(lat, lon, radius float64, n int, jag float64, scale float64) 
 				lo = g.PoolLon()
 			}
 		}
+		if len(pts) > 0 && la == pts[len(pts)-1][0] && lo == pts[len(pts)-1][1] {
+			continue
+		}
 		pts = append(pts, [2]float64{la, lo})
 	}
 	pts = append(pts, pts[0])
@@ -317,12 +320,24 @@ func (g *Gen) lineCoords() (string, [][2]float64) {
 		lo := clamp(lon+(g.Rng.Float64()*2-1)*ext, -180, 180)
 		switch g.Rng.Intn(6) {
 		case 0:
-			la = pts[i-1][0] // horizontal segment
+			la = pts[len(pts)-1][0] // horizontal segment
 		case 1:
-			lo = pts[i-1][1] // vertical segment
+			lo = pts[len(pts)-1][1] // vertical segment
+		}
+		if la == pts[len(pts)-1][0] && lo == pts[len(pts)-1][1] {
+			// no zero-length segments: a repeated vertex makes tile38's line-in-line
+			// test spin forever (reported separately), which would wedge the server
+			continue
 		}
 		pts = append(pts, [2]float64{la, lo})
 		g.remember(la, lo)
+	}
+	if len(pts) < 2 {
+		l2 := lat + 1e-3
+		if lat > 0 {
+			l2 = lat - 1e-3
+		}
+		pts = append(pts, [2]float64{l2, lon})
 	}
 	return ringJSON(pts), pts
 }
